@@ -246,6 +246,11 @@ def _commit_assigns(ctx):
     # UNPACKABLES name real parser attributes
     for cls, mod in (('PLSSParser', 'plss_parse'), ('TractParser', 'tract_parse')):
         unp = ctx.fold.get_attr(mod, cls, 'UNPACKABLES')
+        if isinstance(unp, dict):
+            unp = list(unp.values())        # {owner attribute: parser attribute}
+        if not isinstance(unp, (list, tuple)) or not all(isinstance(u, str) for u in unp):
+            ctx.undecided('TBL', f"{cls}.UNPACKABLES are attributes of {cls}", 'table is not a sequence of names')
+            continue
         members = ctx.repo.class_members(ctx.repo.cls(f"{mod}:{cls}"))
         miss = [u for u in unp if u not in members]
         ci_ = ctx.repo.cls(f"{mod}:{cls}")
